@@ -170,7 +170,8 @@ def gen_time_history(rng):
         elif c < 0.8:
             ops.append(("nice", i, rng.choice([None, 10, 5])))
         elif c < 0.9:
-            ops.append(("range", i, rng.choice([0, -20, 7.5]), rng.choice([100, 360, 1000])))
+            # "range!": the caller changes the list it passed before in place and passes the same object again
+            ops.append((rng.choice(["range", "range!"]), i, rng.choice([0, -20, 7.5]), rng.choice([100, 360, 1000, 640])))
         else:
             ops.append(("call", i, rng.randint(LO, HI)))
     return ops
@@ -180,12 +181,19 @@ def run_time_history(ops, m):
     """returns per object (reported domain in ms, reported range, ticks(m) in ms) after the history"""
     from labella.scale import TimeScale
     objs = [TimeScale()]
+    passed = {}
     for o in ops:
         s = objs[o[1]]
         if o[0] == "domain":
             s.domain([to_dt(o[2]), to_dt(o[3])])
-        elif o[0] == "range":
-            s.range([o[2], o[3]])
+        elif o[0] in ("range", "range!"):
+            lst = passed.get(o[1]) if o[0] == "range!" else None
+            if lst is None:
+                lst = [o[2], o[3]]
+            else:
+                lst[0], lst[1] = o[2], o[3]
+            passed[o[1]] = lst
+            s.range(lst)
         elif o[0] == "nice":
             s.nice(o[2]) if o[2] is not None else s.nice()
         elif o[0] == "copy":
@@ -198,7 +206,7 @@ def run_time_history(ops, m):
     for s in objs:
         d = [to_ms(x) for x in s.domain()]
         tk = s.ticks(m) if m is not None else s.ticks()
-        out.append((d, list(s.range()), tk))
+        out.append((d, list(s.range()), tk, s))
     return out
 
 # ------------------------------------------------------------------------------------------- C16
@@ -228,7 +236,7 @@ def body_c16(tier, seed, rep, only_prop=False, scale=1):
                 res = run_time_history(ops, m)
         except Exception as e:
             rep.prop_fail.append(("ticks() raised %s after a history: %s" % (type(e).__name__, e), {"case": meta})); continue
-        for k, (d, r, tk) in enumerate(res):
+        for k, (d, r, tk, _s) in enumerate(res):
             if d[0] == d[1]:
                 continue
             lines.append("tticks|%d|%d|%s|%s" % (d[0], d[1], fr(10 if m is None else m), msl(tk))); metas.append(dict(meta, obj=k, d0=d[0], d1=d[1]))
@@ -280,6 +288,26 @@ def body_c15(tier, seed, rep, only_prop=False, scale=1):
             inc = (r1 > r0) == (d1 > d0)
             if not ((yb > ya) if inc else (yb < ya)):
                 rep.prop_fail.append(("time scale not strictly monotone", {"case": {"kind": "tscale-mono", "d0": d0, "d1": d1, "r0": r0, "r1": r1, "a": a, "b": b}}))
+    # after any history of domain / range / nice / copy calls (also with a re-used list object) every scale is the affine map through
+    # the domain and the range it REPORTS
+    for _ in range((1200 if tier == "quick" else 15000) * scale):
+        ops = gen_time_history(rng)
+        meta0 = {"kind": "tscale-history", "ops": ops}
+        try:
+            with time_limit(10):
+                res = run_time_history(ops, None)
+                for k, (d, r, tk, s) in enumerate(res):
+                    if d[0] == d[1] or r[0] == r[1]:
+                        continue
+                    lo, hi = min(d), max(d)
+                    for t in (d[0], d[1], rng.randint(lo, hi)):
+                        y = s(to_dt(t))
+                        tinv = to_ms(s.invert(y))
+                        lines.append("tscale|%d|%d|%s|%s|%d|%s|%s" % (d[0], d[1], fr(r[0]), fr(r[1]), t, fr(y), fr(tinv)))
+                        metas.append(dict(meta0, obj=k, t=t, d0=d[0], d1=d[1], r0=r[0], r1=r[1]))
+                        rep.count("value-after-history")
+        except Exception as e:
+            rep.prop_fail.append(("time scale raised %s after a history: %s" % (type(e).__name__, e), {"case": meta0}))
     answers = drive(lines)
     for line, meta, ans in zip(lines, metas, answers):
         f = fields(ans)
@@ -343,8 +371,12 @@ def replay_case(pid, replay):
         tk = s.ticks(m["m"]) if m["m"] is not None else s.ticks()
         line = "tticks|%d|%d|%s|%s" % (m["d0"], m["d1"], fr(10 if m["m"] is None else m["m"]), msl(tk))
     elif m["kind"] == "tticks-history":
-        d, r, tk = run_time_history([tuple(o) for o in m["ops"]], m["m"])[m["obj"]]
+        d, r, tk, _s = run_time_history([tuple(o) for o in m["ops"]], m["m"])[m["obj"]]
         line = "tticks|%d|%d|%s|%s" % (d[0], d[1], fr(10 if m["m"] is None else m["m"]), msl(tk))
+    elif m["kind"] == "tscale-history":
+        d, r, tk, s = run_time_history([tuple(o) for o in m["ops"]], None)[m["obj"]]
+        y = s(to_dt(m["t"]))
+        line = "tscale|%d|%d|%s|%s|%d|%s|%s" % (d[0], d[1], fr(r[0]), fr(r[1]), m["t"], fr(y), fr(to_ms(s.invert(y))))
     elif m["kind"] == "tscale":
         s = TimeScale().domain([to_dt(m["d0"]), to_dt(m["d1"])]).range([m["r0"], m["r1"]])
         y = s(to_dt(m["t"]))
